@@ -26,9 +26,10 @@ RES=""
 for C in $CHECKS; do
   (cd $VROOT && VERIF_REPO=$WT ./check $C --tier quick > $OUT/check_$C.txt 2>&1); RC=$?
   V=$(grep "^VIOLATION\|^OK\|^KNOWN" $OUT/check_$C.txt | tr '\n' ';')
+  V=${V//$VROOT\//\/verif\/}
   echo "== check $C rc=$RC :: $V"
   RP=$(grep -o "replay=[^ ]*" $OUT/check_$C.txt | head -1 | cut -d= -f2)
-  [ -n "$RP" ] && [ -f "$RP" ] && cp "$RP" $OUT/replay_$C.json
+  [ -n "$RP" ] && [ -f "$RP" ] && cp "$RP" $OUT/replay_$C.json && [ "$VROOT" != /verif ] && rm -f "$RP"
   [ "$VROOT" != /verif ] && sed -i "s|$VROOT/|/verif/|g" $OUT/check_$C.txt
   RES="$RES{\"check\":\"$C\",\"rc\":$RC,\"verdict\":\"$(echo $V | sed 's/"/\\"/g')\"},"
 done
